@@ -219,6 +219,15 @@ static void h_pending(int argc, char **argv)
         if (ksim_clock_ms - t0 < (unsigned long)tmo) mc_fail("C09", "timed-out-early/connect", "connect reported a time-out after %lu ms of (virtual) time, the socket's time-out is %d ms", ksim_clock_ms - t0, tmo);
     } else if (!e || p_error_get_code(e) != (pint)P_ERROR_IO_IN_PROGRESS) mc_fail("C09", "pending-connect/wrong-error", "non-blocking connect that cannot complete failed with code %d instead of in-progress", e ? p_error_get_code(e) : 0);
     if (e) p_error_free(e);
+    /* asking again while the handshake is still pending is answered the same way (the kernel says EALREADY this time) */
+    e = NULL; t0 = ksim_clock_ms;
+    ok = p_socket_connect(c, a, &e);
+    if (ok || p_socket_is_connected(c)) mc_fail("C09", "pending-connect/reported-connected", "a second connect on a socket whose handshake is still pending reported a connection");
+    if (blocking) {
+        if (!e || p_error_get_code(e) != (pint)P_ERROR_IO_TIMED_OUT) { bad_error("client", "connect", e, 1); mc_fail("C09", "pending-connect/wrong-error-second-call", "second blocking connect on a pending handshake failed with code %d instead of a time-out", e ? p_error_get_code(e) : 0); }
+        if (ksim_clock_ms - t0 < (unsigned long)tmo) mc_fail("C09", "timed-out-early/connect", "second connect reported a time-out after %lu ms of (virtual) time, the socket's time-out is %d ms", ksim_clock_ms - t0, tmo);
+    } else if (!e || p_error_get_code(e) != (pint)P_ERROR_IO_IN_PROGRESS) mc_fail("C09", "pending-connect/wrong-error-second-call", "second non-blocking connect on a pending handshake failed with code %d instead of in-progress", e ? p_error_get_code(e) : 0);
+    if (e) p_error_free(e);
     p_socket_free(c); p_socket_address_free(a); close(fill); close(ls);
     mc_nontrivial(0);
     mc_outcome("ok");
